@@ -59,8 +59,6 @@ inductive EncOp where
   | nested (tag : Nat) (size : Nat) (how : Nat) (body : Option Bytes)
 deriving Repr
 
-def boolByte (b : Bool) : UInt8 := if b then 1 else 0
-
 def sumSizes (f : α → Nat) (vs : List α) : Nat := (vs.map f).sum
 
 /-- the bytes a writer emits when the buffer is large enough -/
